@@ -199,6 +199,9 @@ pub enum Op {
     Reward { sender: String, msg: RewardMsg },
     Disp { sender: String, msg: DispMsg },
     Reg { sender: String, msg: RegMsg },
+    /// `funds N DENOM AMT ... TRANSACTION`: the transaction of section 3.3 that follows, with these
+    /// coins attached to its root message (in addition to the coins a `bond` carries itself)
+    WithFunds { coins: Vec<(String, u128)>, inner: Box<Op> },
 }
 
 impl Op {
@@ -231,6 +234,7 @@ impl Op {
                 | Op::Reward { .. }
                 | Op::Disp { .. }
                 | Op::Reg { .. }
+                | Op::WithFunds { .. }
         )
     }
 }
@@ -578,6 +582,20 @@ fn parse_inner(c: &mut Cur) -> Result<Op, String> {
             };
             Op::InstStsei { sender, hub, mk, balances: c.addr_amounts()? }
         }
+        "funds" => {
+            let n = c.count()?;
+            let mut coins = Vec::with_capacity(n);
+            for _ in 0..n {
+                let d = c.denom()?;
+                let a = c.u128()?;
+                coins.push((d, a));
+            }
+            let inner = parse_inner(c)?;
+            if !inner.is_transaction() || matches!(inner, Op::WithFunds { .. }) {
+                return Err("funds: a transaction operation must follow".to_string());
+            }
+            Op::WithFunds { coins, inner: Box::new(inner) }
+        }
         "bond" => {
             let kind = match c.next()? {
                 "b" => BondKind::B,
@@ -882,6 +900,7 @@ impl Op {
             Op::InstStsei { sender, hub, mk, balances } => {
                 format!("inst_stsei {} {} {} {}", sender, hub, mk, pairs_str(balances))
             }
+            Op::WithFunds { coins, inner } => format!("funds {} {}", pairs_str(coins), inner.to_line()),
             Op::Bond { kind, sender, coins } => {
                 let k = match kind {
                     BondKind::B => "b",
@@ -1049,6 +1068,11 @@ fn empty_obj() -> Binary {
 pub fn root_message(op: &Op) -> Option<(String, &'static str, Binary, Vec<Coin>)> {
     use basset::hub::ExecuteMsg as H;
     match op {
+        Op::WithFunds { coins, inner } => {
+            let (sender, target, msg, mut funds) = root_message(inner)?;
+            funds.extend(coins.iter().map(|(d, a)| Coin { denom: d.clone(), amount: u(*a) }));
+            Some((sender, target, msg, funds))
+        }
         Op::Bond { kind, sender, coins } => {
             let m = match kind {
                 BondKind::B => H::Bond {},
@@ -1513,7 +1537,7 @@ pub fn apply_op(world: &mut World, op: &Op) -> OpResult {
                     .map_err(|e| e.to_string())
             }))
         }
-        Op::Bond { .. } | Op::Hub { .. } | Op::Cw { .. } | Op::Reward { .. } | Op::Disp { .. } | Op::Reg { .. } => {
+        Op::Bond { .. } | Op::Hub { .. } | Op::Cw { .. } | Op::Reward { .. } | Op::Disp { .. } | Op::Reg { .. } | Op::WithFunds { .. } => {
             let (sender, target, msg, funds) = match root_message(op) {
                 Some(x) => x,
                 None => return OpResult::err("message not available for this token".to_string()),
